@@ -195,6 +195,23 @@ func newMetaDB() *metaDB {
 	return &metaDB{db: db, epoch: ep, dir: dir}
 }
 
+// batched runs call inside ONE bbolt batch together with a partner call that fails in its closure without touching
+// anything (a header the metabase refuses): bbolt rolls the batch back, runs the surviving closure AGAIN and the
+// failed one alone. A closure that keeps results outside itself across the two runs counts them twice.
+func (m *metaDB) batched(call func()) {
+	m.db.VerifSetBatch(2, 2*time.Second) // the batch waits for its second call
+	defer m.db.VerifSetBatch(1000, time.Microsecond)
+	done := make(chan struct{})
+	go func() { defer close(done); call() }()
+	time.Sleep(15 * time.Millisecond) // the call is queued first
+	bad := object.New(numCID(1), numOwner(1))
+	bad.SetID(numOID(200)) // no payload checksum, no type-specific fields: VerifyHeaderForMetadata refuses it
+	if err := m.db.Put(bad); err == nil {
+		panic("batched: the partner call was expected to fail")
+	}
+	<-done
+}
+
 func (m *metaDB) close() {
 	m.db.Close()
 	os.RemoveAll(m.dir)
@@ -318,12 +335,25 @@ func metaExec(c *runCtx, ops []string) {
 		case "put":
 			cn := o.int("c")
 			obj := buildChainObj(cn, o)
-			err := m.db.Put(obj)
+			var err error
+			if o.flag("bat") {
+				m.batched(func() { err = m.db.Put(obj) })
+			} else {
+				err = m.db.Put(obj)
+			}
 			res = "=> " + metaErrClass(err)
 			c.count("put:" + metaErrClass(err))
 			sh.put(cn, o, err)
 		case "mark":
-			_, err := m.db.MarkGarbage(numCID(o.int("c")), idList(o.ints("ids")), meta.GarbageMark(o.int("red")))
+			var err error
+			mark := func() {
+				_, err = m.db.MarkGarbage(numCID(o.int("c")), idList(o.ints("ids")), meta.GarbageMark(o.int("red")))
+			}
+			if o.flag("bat") {
+				m.batched(mark)
+			} else {
+				mark()
+			}
 			res = "=> " + metaErrClass(err)
 			sh.mark(o.int("c"), o.ints("ids"), o.int("red") == 1)
 		case "inhumecnr":
@@ -337,7 +367,13 @@ func metaExec(c *runCtx, ops []string) {
 		case "sync":
 			res = "=> " + metaErrClass(m.db.SyncCounters())
 		case "delete":
-			_, _, err := m.db.Delete(numCID(o.int("c")), idList(o.ints("ids")))
+			var err error
+			del := func() { _, _, err = m.db.Delete(numCID(o.int("c")), idList(o.ints("ids"))) }
+			if o.flag("bat") {
+				m.batched(del)
+			} else {
+				del()
+			}
 			res = "=> " + metaErrClass(err)
 			sh.delete(o.int("c"), o.ints("ids"))
 		case "revive":
@@ -374,7 +410,13 @@ func metaGen(c *runCtx, run func([]string)) {
 		n := 8 + c.rng.IntN(28)
 		var ops []string
 		for i := 0; i < n; i++ {
-			ops = append(ops, g.op())
+			op := g.op()
+			// now and then a writing call shares its bbolt batch with a call that fails (the batch is rolled back and
+			// the surviving closure runs a second time)
+			if c.prop == "C02" && c.rng.IntN(12) == 0 && (strings.HasPrefix(op, "meta mark") || strings.HasPrefix(op, "meta put") || strings.HasPrefix(op, "meta delete")) {
+				op += " bat=1"
+			}
+			ops = append(ops, op)
 		}
 		run(ops)
 	}
